@@ -8,19 +8,23 @@
 (*              | "slow" (slower than the configured timeout)              *)
 (*   upgrade  - "none" | "websocket" (no timeout applies) | "other" (any   *)
 (*              other Upgrade header: the timeout applies)                 *)
+(*   client   - "stays" | "half-close" (the client shuts down its sending   *)
+(*              side once the request is sent and keeps reading: Go's      *)
+(*              server cancels the request, which races with the answer)   *)
 (* TLC enumerates every combination; Answer is written the way the code    *)
 (* decides and the invariants state the property.                          *)
 (***************************************************************************)
 EXTENDS Integers
 
-VARIABLES known, route, ups, upgrade
-vars == <<known, route, ups, upgrade>>
+VARIABLES known, route, ups, upgrade, client
+vars == <<known, route, ups, upgrade, client>>
 
 Init ==
   /\ known \in BOOLEAN
   /\ route \in {"local", "forwarded"}
   /\ ups \in {"ok", "absent", "goaway", "close-early", "close-mid", "slow"}
   /\ upgrade \in {"none", "websocket", "other"}
+  /\ client \in {"stays", "half-close"}
 Next == UNCHANGED vars
 Spec == Init /\ [][Next]_vars
 
@@ -36,6 +40,13 @@ Answer(k, u, g) ==
   ELSE "upstream"
 
 Ans == Answer(known, ups, upgrade)
+
+\* everything the client may get: with a client that half-closed, an answer that would have been
+\* passed through may also be abandoned (the request was cancelled) - then piko answers 502
+Answers(k, u, g, c) ==
+  {Answer(k, u, g)} \cup (IF c = "half-close" /\ Answer(k, u, g) \in {"upstream", "broken", "504"} THEN {"502"} ELSE {})
+Allowed == Answers(known, ups, upgrade, client)
+OnlyGatewayErrorsOrTheUpstream == Allowed \subseteq {"400", "502", "504", "upstream", "broken"}
 
 PikoAnswersOnly400_502_504 == Ans \in {"400", "502", "504", "upstream", "broken"}
 MissingEndpointIs400 == ~known => Ans = "400"
